@@ -98,6 +98,26 @@ func c08StopTimes(tier string) Harness {
 				st.set(r, "stop_sequence", strconv.FormatInt(n, 10))
 			}
 		}
+		if c.Free("ids_and_sequences_collide_when_concatenated", 2) == 1 {
+			ren := map[string]string{"T1": "7", "T2": "71", "T3": "711"}
+			for _, f := range []string{"trips.txt", "stop_times.txt", "frequencies.txt"} {
+				t := m.t(f)
+				for r := range t.Rows {
+					if v, _ := t.get(r, "trip_id"); ren[v] != "" {
+						t.set(r, "trip_id", ren[v])
+					}
+				}
+			}
+			st := m.t("stop_times.txt")
+			n := map[string]int{}
+			for r := range st.Rows {
+				id, _ := st.get(r, "trip_id")
+				k := n[id]
+				n[id]++
+				st.set(r, "stop_sequence", map[string][]string{"7": {"11", "12", "13", "110"}, "71": {"1", "2", "3", "10"}, "711": {"0", "1", "2", "3"}}[id][k%4])
+			}
+			c.Witness("colliding_id_and_sequence_texts")
+		}
 		// one row may have neither an arrival nor a departure time (legal for non-timepoints; the
 		// parser has no time to give it and leaves the row out): wherever that row lands, the other
 		// rows must come out the same
@@ -233,6 +253,22 @@ func c08Shapes(tier string) Harness {
 		sameZone(m)
 		// shape ids whose order by id differs from their order of appearance and whose lengths differ
 		rename := map[string]string{"SH1": "b", "SH2": "a10", "SH3": "a9"}
+		collide := c.Free("ids_and_sequences_collide_when_concatenated", 2) == 1
+		if collide {
+			// shape "7" with sequences 11, 12, 13 and shape "71" with sequences 1, 2, 3 (and "711" with 0..): the
+			// texts id+sequence coincide ("711", "712", ...), the (id, sequence) pairs do not
+			rename = map[string]string{"SH1": "7", "SH2": "71", "SH3": "711"}
+			t := m.t("shapes.txt")
+			n := map[string]int{}
+			for r := range t.Rows {
+				id, _ := t.get(r, "shape_id")
+				k := n[id]
+				n[id]++
+				seq := map[string][]string{"SH1": {"11", "12", "13", "110"}, "SH2": {"1", "2", "3", "10"}, "SH3": {"0", "1", "2", "3"}}[id][k%4]
+				t.set(r, "shape_pt_sequence", seq)
+			}
+			c.Witness("colliding_id_and_sequence_texts")
+		}
 		for _, f := range []string{"shapes.txt", "trips.txt"} {
 			t := m.t(f)
 			for r := range t.Rows {
@@ -253,7 +289,7 @@ func c08Shapes(tier string) Harness {
 		if !identity {
 			c.Witness("shape_rows_permuted")
 		}
-		c08Compare(c, m, "shapes-row-order-irrelevant", fmt.Sprint(d), !identity)
+		c08Compare(c, m, "shapes-row-order-irrelevant", fmt.Sprint(d, collide), !identity)
 	}
 }
 
@@ -281,7 +317,7 @@ func init() {
 	register(&Check{
 		ID:    "C08",
 		Level: "model_checking",
-		Rule: "feeds with rows distributed over 2-3 trips / shapes (5 distributions of <=6 rows; thorough 6 distributions of <=8 rows), sequence numbers 2,10,100,0,33,... (text order != numeric order), also shifted to straddle 2^31, spread beyond 2^32 and multiplied; ALL permutations of stop_times.txt rows (optionally one row without any time) and of shapes.txt rows; a trip of 9..130 stop times next to one of 2-3, each in ascending / descending / rotated / once-swapped order, long first, short first or interleaved; ALL permutations of the rows of agency, routes, stops, transfers, calendar, calendar_dates, trips, frequencies (3-5 rows each); " +
+		Rule: "feeds with rows distributed over 2-3 trips / shapes (5 distributions of <=6 rows; thorough 6 distributions of <=8 rows), sequence numbers 2,10,100,0,33,... (text order != numeric order), ids 7 / 71 / 711 with sequences whose concatenation with the id collides, also shifted to straddle 2^31, spread beyond 2^32 and multiplied; ALL permutations of stop_times.txt rows (optionally one row without any time) and of shapes.txt rows; a trip of 9..130 stop times next to one of 2-3, each in ascending / descending / rotated / once-swapped order, long first, short first or interleaved; ALL permutations of the rows of agency, routes, stops, transfers, calendar, calendar_dates, trips, frequencies (3-5 rows each); " +
 			"non-trivial = distinct archives whose rows are not in identity order; oracles = reference interpretation + relation (feed up to row order -> dump)",
 		Assumptions: []string{"all agencies share one zone in this check (the first agency legitimately determines the zone of every date)", "reference targets are named by id so that a permuted collection compares independent of indices"},
 		Scenarios: func(tier string) []*Scenario {
